@@ -526,6 +526,21 @@ pub fn type_pair_family(k: usize, tier: Tier) -> Vec<String> {
             out.push(format!("(pp : int -> type) => (uu : pp (-{a})) => (kk : pp {r} -> int) => kk uu"));
         }
     }
+    // A binder whose domain is the NAME of a definition, in a group where the neighbouring definitions
+    // decide whether that name is a type: `kind = K; sort = S; point : kind = V; (w : point) -> bool` (and the
+    // lambda form), at top level and under a parameter. Well typed exactly when `point` is a type; the
+    // check "the domain is a type" is made in the scope of the binder's own position, not one further in.
+    for k in ["type", "int", "bool"] {
+        for s_ in ["type", "int"] {
+            for v in ["int", "bool", "1 + 1", "true"] {
+                for (pre, post) in [("", ""), ("(nn : int) => (", ")")] {
+                    out.push(format!("{pre}kind = {k}; sort = {s_}; point : kind = {v}; (ww : point) -> bool{post}"));
+                    out.push(format!("{pre}kind = {k}; point : kind = {v}; sort = {s_}; (ww : point) => 1{post}"));
+                    out.push(format!("{pre}sort = {s_}; kind = {k}; point : kind = {v}; (ww : point) -> (zz : point) -> sort{post}"));
+                }
+            }
+        }
+    }
     // Dependent function types with two type parameters, one written out and one obtained by applying a
     // type-level function (so that the comparison cannot be settled syntactically and goes through
     // normalisation), under three spellings of the binder names: the same names at the same positions,
